@@ -450,6 +450,11 @@ def run_script(ops_or_len, rng, profile, drv, res, with_listeners=True, outcomes
                 if any(not x.get("soft") for x in findings):
                     break
                 continue
+            # reach of replay_mirror_partial: every call except re-pointing an already referenced instance
+            if op["t"] == "setRef" and op.get("d") is not None and op["i"] < len(cur["instance"]) and cur["instance"][op["i"]]["ref"] is not None:
+                res.dist("theorem_scope:replay_mirror_partial:out:re-pointing")
+            else:
+                res.dist("theorem_scope:replay_mirror_partial:in")
             for (kind, lab) in operands(op):
                 world.get(kind, lab)                 # materialise operands outside the recording window
             tok = prepare(world, op)
